@@ -62,7 +62,7 @@ Definition holds (x : jarr) (o : outcome) : bool :=
      9   the harness produced an input outside the model's well-formedness (harness error)
      10+c  property fails outside the domain, clause c, exactly as the model predicts (known defect class)
      20+c  property fails outside the domain, clause c, but not in the way the model predicts
-   clauses: 0 D9_gcxs_1d | 1 D9_csr_csc_subclass | 2 NB_shape_fits_coords_dtype *)
+   clauses: 0 D9_gcxs_1d | 1 D9_csr_csc_subclass | 2 NB_shape_fits_coords_dtype | 3 NB_construct_shape_type *)
 Definition classify (x : jarr) (wfx : bool) (clause : option Z) (m : res (arr Z)) (o : outcome) : Z :=
   if negb wfx then 9
   else if (fst o =? 100) || (fst o =? 101) then 6
@@ -117,13 +117,18 @@ Definition judge_copy (c : jarr * bool * outcome * list (Z * bool)) : Z :=
     end
   end.
 
-(* ---- Numba boxing (COO only): dt = (bits, signed) of the coordinate dtype *)
-Definition judge_numba (c : jarr * (Z * bool) * outcome) : Z :=
-  let '(j, dt, o) := c in
+(* ---- Numba (COO only): dt = (bits, signed) of the coordinate dtype; construct = false: identity function
+   (unbox + box), true: COO(coords, data, shape) inside the compiled function (fill must be the zero token) *)
+Definition judge_numba (c : jarr * (Z * bool) * bool * outcome) : Z :=
+  let '(j, dt, construct, o) := c in
   match to_arr j with
   | ACoo co =>
     let okin := forallb (fun d => 0 <=? d) (c_shape co) && canonicalb co in
-    classify j okin (if nb_shape_fits Z dt co then None else Some 2) (nb_roundtrip Z dt co) o
+    if construct then
+      classify j (okin && (c_fill co =? 0)) (if nb_construct_typed dt (c_shape co) then None else Some 3)
+               (nb_construct Z 0 dt co) o
+    else
+      classify j okin (if nb_shape_fits Z dt co then None else Some 2) (nb_roundtrip Z dt co) o
   | _ => 9
   end.
 
